@@ -90,6 +90,11 @@ CHECKS = {
     text="TLC checks on Session.tla that a plan whose value lives only in a bounded process-wide cache is NOT transparent (Faithful=TRUE must violate Transparent: the model reproduces the documented defect), while recompute-on-miss with a complete key is. TLC-generated relational programs (every program ending in or one operator above set_index / sort_values included) are pickled in three forms, loaded in fresh interpreters (optimized forms first, nothing warms a cache) and name, declared schema, npartitions, divisions, result (order / labels where defined) and partition lengths are validated by TLC against the originating process.",
     note="Trusted: TLC; cloudpickle; subprocess interpreters of /venv. Partition lengths compared only where the program defines the row order.",
     design="5.7 C16"),
+ "C15": dict(
+    technique="TLA+ model of one Python process of the planner (Hist.tla: bounded LRU caches, table of live expressions with memoised values, dataset versions, failing tasks) model-checked by TLC incl. three negative controls; TLC -simulate behaviours replayed as session histories against the real code, every observation compared by TLC (SessionTrace) with the same query in a fresh process; recorded LRU events validated against the model's LRU (LruTrace)",
+    text="TLC checks Transparent on Hist.tla for the mechanisms as implemented (complete cache keys, names that cover the dataset contents, failures store nothing) and finds a counterexample when any one is switched off. Behaviours of the same module (Build / Plan / Observe / Discard+gc / Churn / FailPlan / RewriteDask / RewriteOutside over 16 queries, LRU capacity 10) are replayed, each in its own process, over pools of concrete twin queries that differ in exactly one cache-key field (sort direction, npartitions, upsample, frame, partition selection, partition size, parquet columns / filters / statistics use); every observation of a handle (and of a held optimized plan) - name, plan, schema, npartitions, divisions, result, sort-key order, partition lengths - is validated by TLC against the same query built alone in a process forked from a pristine zygote. The lru_get / lru_set events of every cache object are validated against the LRU discipline of the model.",
+    note="Trusted: TLC; fork(); the hooks of dask_expr/_verif.py (cache / lru / instance events). A handle on the dataset built before a rewrite is not observed (the property speaks of re-reading).",
+    design="5.8 C15"),
 }
 
 def main():
